@@ -86,7 +86,7 @@ def run(ctx):
                 every = ctx.rng.choice([1, 2, 3])
                 spy["log"] = []
                 fi = fcfgs.index(cfg)
-                refpath = os.path.join(d, common.ckpt_name("ref", fi + 1))
+                refpath = common.as_user_path(os.path.join(d, common.ckpt_name("ref", fi + 1)), fi)
                 ref = sr.aspire_file_run(cfg, refpath, every=every)
                 if ref.error is not None:
                     continue
@@ -108,7 +108,7 @@ def run(ctx):
                     ctx.violation(f"file-cadence:every={every}", f"file callback invoked at {got}, cadence dictates {want}", {"cfg": cfg, "every": every})
                 ks = sorted(set([0, 1, 2, total // 2, total - 1] + [ctx.rng.randrange(0, total) for _ in range(ctx.scale(3, 40))]))
                 for k in ks:
-                    path = os.path.join(d, common.ckpt_name(f"f{k}", k))
+                    path = common.as_user_path(os.path.join(d, common.ckpt_name(f"f{k}", k)), k)
                     spy["log"] = []
                     bad = sr.aspire_file_run(cfg, path, fail_at=k, every=every)
                     if bad.error is None:
